@@ -531,6 +531,48 @@ theorem foldl_selStep_done (exact ok : α → Bool) (lenNew lenCur : α → Nat)
   | nil => rfl
   | cons x l ih => simpa [List.foldl_cons, selStep] using ih
 
+/-- two choosing loops that read the candidate's length through functions that agree on the visited
+    entries (and on the candidate held at the start) go through the same states -/
+theorem foldl_selStep_congr (exact ok : α → Bool) (lenNew lenCur lenCur' : α → Nat) (l : List α) (s : Sel α)
+    (hs : ∀ m, s = .cand (some m) → lenCur m = lenCur' m) (hl : ∀ x ∈ l, lenCur x = lenCur' x) :
+    l.foldl (selStep exact ok lenNew lenCur) s = l.foldl (selStep exact ok lenNew lenCur') s := by
+  induction l generalizing s with
+  | nil => rfl
+  | cons x l ih =>
+    have hx : lenCur x = lenCur' x := hl x (List.mem_cons_self ..)
+    have hl' : ∀ y ∈ l, lenCur y = lenCur' y := fun y hy => hl y (List.mem_cons_of_mem _ hy)
+    have e : selStep exact ok lenNew lenCur s x = selStep exact ok lenNew lenCur' s x := by
+      cases s with
+      | done a => rfl
+      | cand best =>
+        cases best with
+        | none => rfl
+        | some m => simp only [selStep, hs m rfl]
+    simp only [List.foldl_cons]
+    rw [e]
+    refine ih _ ?_ hl'
+    intro m hm
+    cases s with
+    | done a => simp [selStep] at hm
+    | cand best =>
+      cases best with
+      | none =>
+        simp only [selStep] at hm
+        split at hm
+        · cases hm
+        · split at hm
+          · cases hm; exact hx
+          · cases hm
+      | some m0 =>
+        simp only [selStep] at hm
+        split at hm
+        · cases hm
+        · split at hm
+          · split at hm
+            · cases hm; exact hx
+            · cases hm; exact hs _ rfl
+          · cases hm; exact hs _ rfl
+
 /-! ### byte-string prefixes -/
 
 theorem hasPrefixB_eq_of_length : ∀ (p a b : List Nat), hasPrefixB p a = true → hasPrefixB p b = true →
